@@ -4,6 +4,7 @@
 -/
 import HaqqModel.Driver.C12
 import HaqqModel.Driver.C09
+import HaqqModel.Driver.C17
 
 open Haqq.Driver
 
@@ -16,6 +17,7 @@ def stepLine (st : All) (line : String) : All × String :=
   match toks with
   | "C12" :: rest => let (s, o) := C12.step st.c12 rest; ({ st with c12 := s }, o)
   | "C09" :: rest => let (s, o) := C09.step st.c09 rest; ({ st with c09 := s }, o)
+  | "C17" :: rest => (st, C17.step rest)
   | _ => (st, "bad-op")
 
 partial def loop (h : IO.FS.Stream) (out : IO.FS.Stream) (st : All) : IO Unit := do
